@@ -1107,7 +1107,8 @@ impl<S: BaseFloat> Transform<Point2<S>> for Matrix3<S> {
     }
 
     fn transform_point(&self, point: Point2<S>) -> Point2<S> {
-        Point2::from_vec((self * Point3::new(point.x, point.y, S::one()).to_vec()).truncate())
+        let v = self * Point3::new(point.x, point.y, S::one()).to_vec();
+        Point2::from_vec(v.truncate() * (S::one() / v.z))
     }
 
     fn concat(&self, other: &Matrix3<S>) -> Matrix3<S> {
